@@ -32,7 +32,7 @@ def make_arg(rng, lazy_ok=True):
     if k < 0.4:
         return sympy.Rational(rng.randint(-7, 7), rng.choice([2, 3]))
     if k < 0.6:
-        return rng.choice(["abc", "a b", "", "Hello", "12", "x"])
+        return rng.choice(["abc", "a b", "", "Hello", "12", "x", "d", "+", "_", "W", "1 2"])     # (some are programs)
     if k < 0.8:
         return [rng.randint(0, 5) for _ in range(rng.randint(0, 4))]
     if k < 0.9:
@@ -40,6 +40,23 @@ def make_arg(rng, lazy_ok=True):
     if lazy_ok:
         return LazyList(iter([rng.randint(0, 5) for _ in range(rng.randint(0, 4))]))
     return [1, 2, 3]
+
+
+def _random_key(key, opkeys):
+    """elements that draw random numbers, read the clock or print type-dependent text are not compared across
+    representations"""
+    import vyxal.elements as E
+
+    from . import c08, extract
+    if not hasattr(_random_key, "fn"):
+        elems, _ = extract.element_table()
+        _random_key.fn = {e["key"]: e["fn"] for e in elems}
+    for k in [key] + list(opkeys):
+        fn = _random_key.fn.get(k)
+        tmpl = str(E.elements.get(k, ("", 0))[0])
+        if (fn and c08.uses_randomness(fn)) or "random" in tmpl or "time" in tmpl or "input(" in tmpl:
+            return True
+    return False
 
 
 def snapshot(v):
@@ -106,6 +123,14 @@ def observe(case):
     if variant == 4:
         garr_view = [7, [8, 9]]
         variant = 0
+    if variant == 5:            # a list as the TOP argument (elements that choose an overload by its type)
+        args[-1] = rng.choice([[12, 18, 30], [4, 6], [[1, 2], [3]], [7], []])
+        variant = 0
+    if variant == 6:            # a program text as the argument of the elements that run text (Ė E †), also under modifiers
+        args[0 if m == "ß" else -1] = rng.choice(["d", "+", "_", "W", "1 2", ":", "$", "3 4+", "!"])
+        if m == "ß":
+            args[-1] = 1
+        variant = 0
     if variant:
         # with a list as first argument the common case is small integers for the others (index, count, value)
         for j in range(1, len(args)):
@@ -131,6 +156,12 @@ def observe(case):
         ns["ctx"].global_array = [7, [8, 9]]
         exec(E.elements["¾"][0], ns)
         sentinels = sentinels + [ns["stack"].pop()]
+    import copy
+    # plain copies of the arguments taken before anything runs (lazy ones as their items)
+    args_plain = [LazyList(iter(list(x.listify()))) if isinstance(x, LazyList) else copy.deepcopy(x) for x in args] \
+        if variant == 0 and garr_view is None else list(args)
+    if variant == 0 and garr_view is None:
+        args = [LazyList(iter(list(x.listify()))) if isinstance(x, LazyList) else x for x in args]
     stack = sentinels + args
     text = (m or "") + "".join(opkeys)
     tmpl = E.elements.get(key, ("", 1))[0] if not m else ""
@@ -166,6 +197,33 @@ def observe(case):
         ev["raised"] = "SystemExit"
     except BaseException as e:  # noqa: BLE001
         ev["raised"] = type(e).__name__
+    # the same construct with every list argument given the OTHER way (eager <-> lazy): a list is what it denotes,
+    # so the stack it leaves -- how many entries, which values -- must be the same
+    ev["twin"] = []
+    ev["twinok"] = False
+    has_list = any(isinstance(x, (list, LazyList)) for x in args)
+    if has_list and not ev["raised"] and variant == 0 and garr_view is None and not _random_key(key, opkeys):
+        try:
+            def flip(x):
+                if isinstance(x, LazyList):
+                    return list(x.listify()) if False else [flip(y) for y in list(x)]
+                if isinstance(x, list):
+                    return LazyList(iter([y for y in x]))
+                return x
+            args2 = [flip(x) for x in args_plain]
+            ns2 = runner.fresh_ns(stack=[])
+            if flagv == 1:
+                ns2["ctx"].reverse_flag = True
+            elif flagv == 2:
+                ns2["ctx"].truthy_lists = True
+            ns2["stack"][:] = [[901, [902]], "sentinel", [903]] + args2
+            with runner.CaptureStdout():
+                common.with_alarm(lambda _: exec(code, ns2), None, 5)
+            ev["twin"] = [snapshot(x) for x in ns2["stack"]]
+            ev["full1"] = [snapshot(x) for x in st]
+            ev["twinok"] = True
+        except BaseException:  # noqa: BLE001  the other representation is inapplicable: nothing to compare
+            ev["twin"], ev["twinok"] = [], False
     del keep_alive
     # pad so that SubSeq comparisons are well defined
     return ev
@@ -178,11 +236,11 @@ def main(tier):
     common.import_repo()
     elems, mods = extract.element_table()
     keys = [k for k in dict.fromkeys(e["key"] for e in elems) if k not in SKIP_KEYS]
-    per = 4 if tier == "quick" else 40
+    per = 6 if tier == "quick" else 42
     cs = []
     for k in keys:
         for i in range(per):
-            cs.append(("elem", k, "", [k], rng.randint(0, 10 ** 8) * 8 + (i + 1) % 5))
+            cs.append(("elem", k, "", [k], rng.randint(0, 10 ** 8) * 8 + (i + 1) % 6))
     mper = 1 if tier == "quick" else 6
     for m in MONADIC + DYADIC + TRIADIC:
         n = 1 if m in MONADIC else 2 if m in DYADIC else 3
@@ -192,13 +250,19 @@ def main(tier):
                 if i % 2 and n > 1:
                     ops = ops[1:] + ops[:1]
                 cs.append(("mod", k, m, ops, rng.randint(0, 10 ** 8) * 8 + (i % 5 if mper > 1 else rng.randint(0, 4))))
+    for m in [""] + list(MONADIC + DYADIC + TRIADIC):
+        for k in ("Ė", "E"):
+            n = 0 if not m else 1 if m in MONADIC else 2 if m in DYADIC else 3
+            for j in range(4 if tier == "quick" else 20):
+                ops = [k] + [rng.choice(["+", "›", "d", "_"]) for _ in range(max(n - 1, 0))]
+                cs.append(("mod" if m else "elem", k, m, ops, rng.randint(0, 10 ** 8) * 8 + 6))
     with common.Scratch(PID) as s:
         mc = tlc.model_check(s, "MC_Machine", cfg="MC_Machine_quick", workers=16, xss="512m", xmx="16g", timeout=3000)
         if not mc["ok"]:
             V.add("spec:MC_Machine:" + str(mc["violated"]), {"trace": tlc.counterexample(mc["out"])})
         obs = common.pool_map(observe, cs, initfn=common.import_repo, hard_timeout=30,
                               on_timeout=lambda c: {"key": cps(c[1]), "opkey": [], "m": 0, "ka": 0, "kb": 0, "ta": 0, "tb": 0, "pe": False, "condtrue": True, "flagv": 0, "ids0": [], "vals0": [], "topint": -1,
-                                                    "strarg": False, "raised": "hang", "ids1": [], "vals1": []})
+                                                    "strarg": False, "raised": "hang", "ids1": [], "vals1": [], "twin": [], "twinok": False})
         verdicts, st = tlc.validate(s, "Trace_Frame", obs, cfg="Trace_Frame.cfg", chunk=3000)
     tally = {}
     okkeys = set()
